@@ -10,5 +10,7 @@ def run(ctx):
     arity(ctx)
     from ..scen_misc import preset_collection
     preset_collection(ctx)
+    from ..scen_files import file_sources
+    file_sources(ctx)         # opening an input consumes nothing of it (a byte consumed while opening is input read before the configuration is known to be valid)
     from ..conform import conformance
     conformance(ctx, ['invalid-config'])      # the references the obligations are stated against, compared with jawk::go on concrete runs (validates the oracles; never decides)
